@@ -186,7 +186,7 @@ func judgeGenFail(c *Ctx, k genFailCase) {
 func init() {
 	register(&Prop{
 		ID: "C13",
-		Rule: "every (ok, err) pair of ValidateHOTP / ValidateTOTP / ValidateOCRA over reduced C03, C04 and C06 workloads (accepting and rejecting cases; failure causes wrong code, wrong length, undecodable secret, unsupported hash/digits, refused skew, unusable suite, inadmissible input) must be (true,nil) or (false,error); every error text (all Unwrap levels) of those and of failing Generate*/DecodeSecret/ParseOTPAuthURL/Generate*URL calls is scanned for the secret (as supplied, canonical, lower-case, raw bytes, hex; keys >= 10 bytes) and for any code of the acceptance window (>= 6 digits); " +
+		Rule: "every (ok, err) pair of ValidateHOTP / ValidateTOTP / ValidateOCRA over reduced C03, C04 and C06 workloads (accepting and rejecting cases; failure causes wrong code, wrong length, undecodable secret, unsupported hash/digits, refused skew, unusable suite, inadmissible input) must be (true,nil) or (false,error), also along histories in which one secret and one submitted code are validated while the counter / instant walks across the window and back (observed.same_code_walk_calls); every error text (all Unwrap levels) of those and of failing Generate*/DecodeSecret/ParseOTPAuthURL/Generate*URL calls is scanned for the secret (as supplied, canonical, lower-case, raw bytes, hex; keys >= 10 bytes) and for any code of the acceptance window (>= 6 digits); " +
 			"distinct_nontrivial counts distinct validation cases whose (ok, err) pair was judged plus distinct error texts scanned",
 		Run: func(c *Ctx) {
 			// reduced versions of the C03 / C04 / C06 workloads (every 4th case)
@@ -208,6 +208,9 @@ func init() {
 				bt.add(k)
 			}
 			bt.flush()
+			// one code while the counter / instant walks across the window that contains it (the verdict flips twice)
+			c03SameCodeWalk(c)
+			c04SameCodeWalk(c)
 			bo := newBatcher(c, judgeOCRAV, 0)
 			c06Cases(c, func(k ocraVCase) {
 				if n6++; n6%4 == 0 {
